@@ -175,8 +175,31 @@ class StmtsMixin:
         self.spec_mode += 1
         try:
             for s in tree.body:
+                if isinstance(s, ast.Expr) and isinstance(s.value, ast.Call) and isinstance(s.value.func, ast.Name) \
+                        and s.value.func.id == "hint" and len(s.value.args) == 2 and isinstance(s.value.args[0], ast.Constant):
+                    # proof hint (cut): the fact is an obligation at this point and then a hypothesis
+                    f = self.truth(self.eval(s.value.args[1], st.sub({}, st.cur)), st)
+                    self.ctx.oblige(f"hint/{s.value.args[0].value}", st, f, kind="hint")
+                    st.pc.append(f)
+                    continue
+                if isinstance(s, ast.Expr) and isinstance(s.value, ast.Call) and isinstance(s.value.func, ast.Name) \
+                        and s.value.func.id == "rebind" and len(s.value.args) == 2 and isinstance(s.value.args[0], ast.Constant):
+                    # replace the symbolic value of a program variable by an equal, simpler term:
+                    # the equality is an obligation (value unchanged => behaviour unchanged)
+                    name = s.value.args[0].value
+                    old = st.lookup(name)
+                    if old is None:
+                        raise BindingLost(f"rebind: no variable {name}")
+                    new = self.as_sym(self.eval(s.value.args[1], st.sub({}, st.cur)))
+                    try:
+                        new = V.coerce(new, self.as_sym(old).shape)
+                    except V.ShapeError as e:
+                        raise BindingLost(f"rebind {name}: {e}")
+                    self.ctx.oblige(f"hint/rebind-{name}-is-the-same-value", st, self.py_eq(self.as_sym(old), new), kind="hint")
+                    st.rebind(name, new)
+                    continue
                 if not isinstance(s, (ast.Assign, ast.AugAssign)):
-                    raise BindingLost("ghost code must be assignments")
+                    raise BindingLost("ghost code must be assignments, hint(name, fact) or rebind(var, term)")
                 targets = s.targets if isinstance(s, ast.Assign) else [s.target]
                 for t in targets:
                     if not (isinstance(t, ast.Name) and t.id.startswith("g_")):
